@@ -92,3 +92,4 @@ impl PartialEq for SDJWTSerializationFormat {
         }
     }
 }
+use Error::DeserializationError;
